@@ -249,3 +249,23 @@ Example C10_example_rt :
   = [(S "myVal", DField (S "1")); (S "other", DField (S "2")); (S "zzz", DRaw (S "3"));
      (S "my_vall", DRaw (S "4")); (S "__tag__", DTag (S "A"))].
 Proof. vm_compute. reflexivity. Qed.
+
+(* ---- open finding F10-C10-alone-first (the hypothesis `cache_inv c st` of C10_cache_invariant
+   is what excludes it): the nested class is first loaded ALONE under its default policy
+   (ignore), which writes the negative entry 'seen' -> ExplicitNull into the per-class dict;
+   the loader generated later under a recursive strict outer Meta (same class, c_raise = true)
+   starts from THAT cache, not from init_cache, and accepts the key it should reject.  A key
+   that was not seen before is still rejected. *)
+Definition AI (r : bool) : v0cls :=
+  {| c_name := S "AInner"; c_fields := [S "a"]; c_catch := None; c_tag := None; c_raise := r |}.
+Definition AI_alone : doc pstr := [(S "a", S "7"); (S "seen", S "3")].
+
+Theorem C10_refuted_alone_first :
+  exists (alone strict : v0cls) (d0 : doc pstr),
+    c_fields alone = c_fields strict /\ c_raise alone = false /\ c_raise strict = true /\
+    let st := fst (v0_load yconv alone (init_cache alone) d0) in
+    v0_spec yconv strict [(S "a", S "2"); (S "seen", S "3")] = EUnknown (S "AInner") [S "seen"] /\
+    snd (v0_load yconv strict st [(S "a", S "2"); (S "seen", S "3")]) = OKCall [(S "a", KV (S "2"))] /\
+    snd (v0_load yconv strict st [(S "a", S "2"); (S "bogus", S "3")]) = EUnknown (S "AInner") [S "bogus"].
+Proof. exists (AI false), (AI true), AI_alone. repeat split; vm_compute; reflexivity. Qed.
+Print Assumptions C10_refuted_alone_first.
